@@ -226,9 +226,9 @@ func c11Quiescent(c *explore.Ctx) {
 		base, cfg string
 		depth     int
 	}
-	spaces := []sp{{"E", "BIGC", 2}, {"CH", "BIGC", 2}, {"CC", "BIGC", 2}, {"SP", "BIGC", 2}, {"ML", "BIGC", 2}, {"HO", "BIGC", 2}, {"SP", "ROLL", 2}, {"LCS", "BIGC", 2}, {"LCM", "BIGC", 2}}
+	spaces := []sp{{"E", "BIGC", 2}, {"CH", "BIGC", 2}, {"CC", "BIGC", 2}, {"SP", "BIGC", 2}, {"ML", "BIGC", 2}, {"HO", "BIGC", 2}, {"SP", "ROLL", 2}, {"LCS", "BIGC", 2}, {"LCM", "BIGC", 2}, {"FL3", "BIGC", 3}}
 	if c.Thorough() {
-		spaces = []sp{{"E", "BIGC", 3}, {"CH", "BIGC", 3}, {"CC", "BIGC", 3}, {"SP", "BIGC", 3}, {"ML", "BIGC", 3}, {"HO", "BIGC", 3}, {"SP", "ROLL", 3}, {"CH", "ROLL", 3}, {"E", "ROLL1", 3}, {"LCS", "BIGC", 3}, {"LCM", "BIGC", 3}, {"FL", "BIGC", 3}}
+		spaces = []sp{{"E", "BIGC", 3}, {"CH", "BIGC", 3}, {"CC", "BIGC", 3}, {"SP", "BIGC", 3}, {"ML", "BIGC", 3}, {"HO", "BIGC", 3}, {"SP", "ROLL", 3}, {"CH", "ROLL", 3}, {"E", "ROLL1", 3}, {"LCS", "BIGC", 3}, {"LCM", "BIGC", 3}, {"FL", "BIGC", 3}, {"FL2", "BIGC", 3}, {"FL3", "BIGC", 4}}
 	}
 	for _, s := range spaces {
 		if c.Expired() || c.NViolations() > 0 {
@@ -240,6 +240,11 @@ func c11Quiescent(c *explore.Ctx) {
 		}
 		explore.PinSeed(0)
 		letters := explore.Letters(base.Alpha, explore.Compact)
+		if s.base == "FL" || s.base == "FL2" || s.base == "FL3" {
+			// free-list bases: with clean restarts (the free list is the one piece of index state that a scan depends on
+			// and that only a restart reloads)
+			letters = explore.Letters(base.Alpha, explore.Compact, explore.Reopen)
+		}
 		s := s
 		enumWords(c, letters, s.depth, func(word []explore.Op, checkFrom int) bool {
 			if c.Expired() {
@@ -302,6 +307,9 @@ func c11Word(c *explore.Ctx, base *explore.Base, bname, cfg string, word []explo
 	for i, o := range word {
 		early := s.DB.Items() // created before the write, drained after it
 		_ = s.Apply(o)
+		if o.Kind == explore.Reopen {
+			early = s.DB.Items() // (an iterator does not outlive its database)
+		}
 		c.Add("transitions", 1)
 		if i+1 < checkFrom {
 			continue
